@@ -763,7 +763,7 @@ def _run_recall(fn, key, res, self0, args0, kwargs0, rec, report, count):
 # fields: dataclasses.replace copies them, by design of that function)
 REPLACE_FIELDS = {
     "GaussianMeasure": ("nu", "ln_beta"), "GaussianDiagMeasure": ("nu", "ln_beta"),
-    "GaussianPDF": ("mu",), "GaussianDiagPDF": ("mu",),
+    # (not the densities: nu and ln_beta are init fields next to mu, replace(mu=...) copies them)
     "ConjugateFactor": ("Lambda", "nu", "ln_beta"), "LinearFactor": ("nu", "ln_beta"),
     "OneRankFactor": ("v", "g", "nu", "ln_beta"),
     "ConditionalGaussianPDF": ("M", "b"), "ConditionalGaussianDiagPDF": ("M", "b"),
@@ -965,7 +965,7 @@ def run(fn, name, key, res, pre, state, report, count):
         _run_recall(fn, key, res, self0, args0, kwargs0, rec, report, count)
     if _is_libobj(self0) and (n_call <= FIRST_INT or n_call % EVERY == 0):
         _run_siblings(name, key, res, self0, args0, kwargs0, rec, report, count)
-    if _is_libobj(self0) and (n_call <= FIRST or n_call % EVERY == 0):
+    if _is_libobj(self0) and (n_call <= FIRST_INT // 2 or n_call % EVERY == 0):
         _run_replace(fn, key, self0, args0, kwargs0, rec, report, count)
     # ---- int variant
     cands = _candidates(self0, args0, kwargs0)
